@@ -956,7 +956,25 @@ class Walker:
         for nm in T.free_vars(tgt):
             self.env[nm] = T.var(nm)
         if st.orelse:
-            self.block(st.orelse)
+            # the else block of a loop runs only when the loop was not left by `break`: a condition of its own (what the search
+            # in the body was looking for has not been found)
+            has_break = False
+            todo = list(st.body)
+            while todo:
+                x = todo.pop()
+                if isinstance(x, ast.Break):
+                    has_break = True
+                    break
+                if isinstance(x, (ast.For, ast.AsyncFor, ast.While, ast.FunctionDef, ast.AsyncFunctionDef, ast.Lambda, ast.ClassDef)):
+                    continue
+                todo.extend(ast.iter_child_nodes(x))
+            if has_break:
+                saved_g2 = self.guards
+                self.guards = saved_g2 + (("g", ("unknown", f"loop at line {st.lineno} ended without break"), True),)
+                self.block(st.orelse)
+                self.guards = saved_g2
+            else:
+                self.block(st.orelse)
         return False
 
     def _reduction(self, st: ast.For, it: Term) -> Optional[bool]:
@@ -1835,10 +1853,13 @@ def return_value(prog: Program, fi: FuncInfo) -> Optional[Term]:
         seq = rets
     else:
         seq = rets[:-1]
+    # what an `assert` states is an assumption, not the test that selects a return
+    asserted = {T.guard_term(("g", e.term[1], True)) for e in s.events if e.kind == "assert" and len(e.term) > 1}
     for r in reversed(seq):
         conds = [T.guard_term(g) for g in r.guards]
         # guards accumulated from earlier early-returns are implied by position; keep own test
-        cond = conds[-1] if conds else T.const(True)
+        own = [c_ for c_ in conds if c_ not in asserted]
+        cond = own[-1] if own else (conds[-1] if conds else T.const(True))
         val = ("ifexp", cond, r.term, val)
     return val
 
